@@ -15,7 +15,7 @@ use crate::runq::tmp_file;
 use crate::util::Rng;
 
 /// the sentence: a line becomes a row iff some column is non-NULL (DEFAULT counts) and every NOT NULL column is non-NULL
-fn spec_admitted(td: &TableDefinition, line: &str) -> bool {
+pub(crate) fn spec_admitted(td: &TableDefinition, line: &str) -> bool {
     let lo = line_oracle(td, line);
     let vals: Vec<(bool, bool)> = td.columns.iter().map(|c| (spec_column(td, c, &lo, line).main.is_null(), c.options.nullable)).collect();
     vals.iter().any(|(null, _)| !null) && vals.iter().all(|(null, nullable)| *nullable || !null)
@@ -106,11 +106,11 @@ fn default_schema_cases(run: &mut Run, rng: &mut Rng, json: bool) {
     }
 }
 
-const MAIN_NOISE: &[&str] = &[
+pub(crate) const MAIN_NOISE: &[&str] = &[
     "", " ", "garbage", "a;b;c", ";;;;;", ";;;;;;", ";;;;;;;", "#a;1;x", "A;1;2;3;4;", "a;1;2;3;4", "a;1;2;3;4;!!", "a;x;2;3;4;", "a;;3;1.5;x;", ";;3;;;",
     "a;;;;;", ";;;;;!", "a1;1;2;3;4;", "a;1;2;;;;", "é;1;2;3;4;", "a;1.5;2;3;4;", ";99999999999999999999;;;;", ";;;nanx;;", "a;1;2;3;4;! ", "\ta;1;2;3;4;",
 ];
-const JOIN_NOISE: &[&str] = &["", "#", "nope", "#;;", "a;1;x", "#A;1;x", "#;x;", "#;;;", "# a;1;x", "#a;1", "#;99999999999999999999;"];
+pub(crate) const JOIN_NOISE: &[&str] = &["", "#", "nope", "#;;", "a;1;x", "#A;1;x", "#;x;", "#;;;", "# a;1;x", "#a;1", "#;99999999999999999999;"];
 
 fn pick_noise(rng: &mut Rng, td: &TableDefinition, pool: &[&str]) -> Option<String> {
     for _ in 0..8 {
@@ -283,6 +283,9 @@ pub fn run(p: &Params) -> Run {
         }
     }
     let _ = std::fs::remove_file(jpath);
+    // the same relation on the whole program: raw texts, every output format, byte-level insertion at line boundaries
+    let mut erng = Rng::new(p.seed ^ 0x06e2e);
+    crate::e2e::noise_relation(&mut run, &mut erng, p.n(90, 1500), &spec_admitted, MAIN_NOISE, JOIN_NOISE);
     run.notes.push("any statement (select / aggregate, JOIN, LIMIT, DISTINCT, HAVING) over 1-3 files and a joined file; variants: non-admitted lines deleted, and 1-4 non-admitted lines per file (non-matching text, empty lines, NOT NULL failures, near-misses of the pattern, over-long numbers; chosen per definition by an independent restatement of the admission sentence) inserted at random positions of the files and of the joined file; batch through FileExecutor and line at a time through ExecutionEngine; oracle on the implementation: identical records and outcome, and admission = the sentence on every line".to_owned());
     run
 }
